@@ -3,6 +3,7 @@ CONSTANTS
   MaxCols = 1
   NKeys = 2
   NVals = 2
+  MinCols = 1
   GenLen = 11
 SPECIFICATION RtSpec
 INVARIANTS TypeOK EmitTrace
